@@ -146,7 +146,11 @@ Adv(tok) == IF tok.t = "w" THEN (IF IsNumber(tok.v) THEN AdvWord ELSE AdvKey \cu
             ELSE IF tok.t \in {"raw80", "raw80s"} THEN {} ELSE AdvBin
 
 NoFault == [kind |-> "none", k |-> 0, j |-> 0, s |-> ""]
-ValidFaults(f) == {NoFault} \cup (IF Len(f) > 0 /\ ~f[Len(f)].bin
+\* A text file may lack the newline after its last DATA line.  The header terminator of a PLY file
+\* is the line "end_header<newline>" (it delimits the body, which may be binary), so a header-only
+\* file without that newline is not claimed to be valid.
+EndsWithHeader(f) == Len(f[Len(f)].toks) > 0 /\ f[Len(f)].toks[1].v = "end_header"
+ValidFaults(f) == {NoFault} \cup (IF Len(f) > 0 /\ ~f[Len(f)].bin /\ ~EndsWithHeader(f)
                                    THEN {[kind |-> "cutl", k |-> Len(f), j |-> 0, s |-> ""]} ELSE {})
 Faults(f) ==
     IF OnlyValid THEN ValidFaults(f) ELSE
